@@ -4,6 +4,7 @@ From Coq Require Import List ZArith NArith Bool.
 Import ListNotations.
 From Verif Require Import C01.Lisp C01.Py C01.Gen C01.Sim C01.Top.
 From Verif Require C01.FLisp C01.FCorr C01.FRefuted.
+From Verif Require C01L.LLisp C01L.LPy C01L.LGen C01L.LSim C01L.LTop.
 
 (** First-order core (constants, locals with shadowing, if, do, let*, calls of primitives
     with any number of arguments, nested to any depth).  PARTIAL: guarded by the executable
@@ -34,6 +35,28 @@ Example C01_nonvacuous :
   eval (fun _ => None) Top.sample = Some (VVec [VInt 1; VInt 2], [VInt 1; VVec [VInt 1; VInt 2]]).
 Proof. exact Top.sample_ok. Qed.
 
+(** First-order core extended with loop*/recur (C01L): for every closed program whose
+    evaluation yields a value, without a hoisting hazard and with pairwise distinct binders in
+    each loop*, the compiled code yields the same value and trace for every sufficiently large
+    fuel: one `while True` iteration per source iteration, recur rebinding all loop locals
+    simultaneously.  PARTIAL: same guard as above; fn*/try/def are not in this fragment. *)
+Theorem C01_compile_correct_loops_partial : forall fuel e v tr,
+  LLisp.leval fuel (fun _ => None) e = Some (LLisp.OVal v, tr) -> LGen.hazard_free e = true ->
+  exists m, forall m', (m <= m')%nat -> LGen.lrun m' e = Some (v, tr).
+Proof. exact LTop.lcompile_correct. Qed.
+Theorem C01_loop_simulation : forall fuel, LSim.lsim fuel.
+Proof. exact LSim.lsim_all. Qed.
+Example C01_recur_simultaneous :
+  LGen.hazard_free LTop.swap_loop = true /\
+  LLisp.leval 20 (fun _ => None) LTop.swap_loop = Some (LLisp.OVal (VVec [VInt 2; VInt 1]), []) /\
+  LGen.lrun 20 LTop.swap_loop = Some (VVec [VInt 2; VInt 1], []).
+Proof. exact LTop.swap_loop_ok. Qed.
+Example C01_counting_loop :
+  LGen.hazard_free LTop.count_loop = true /\
+  LLisp.leval 40 (fun _ => None) LTop.count_loop = Some (LLisp.OVal (VVec [VInt 0; VInt 1; VInt 2]), [VInt 0; VInt 1; VInt 2]) /\
+  LGen.lrun 40 LTop.count_loop = Some (VVec [VInt 0; VInt 1; VInt 2], [VInt 0; VInt 1; VInt 2]).
+Proof. exact LTop.count_loop_ok. Qed.
+
 (** Full fragment (fn*/closures, loop*/recur, try/catch/finally, throw, def, literals):
     executable model (FLisp/FPy/FGen) tied to the compiler by the correspondence run.  The
     full statement "model e = spec e for every program" is REFUTED by these witnesses, each
@@ -59,6 +82,10 @@ Example C01_full_model_agrees_sample :
 Proof. exact FRefuted.full_model_agrees_sample. Qed.
 
 Print Assumptions C01_compile_correct_partial.
+Print Assumptions C01_compile_correct_loops_partial.
+Print Assumptions C01_loop_simulation.
+Print Assumptions C01_recur_simultaneous.
+Print Assumptions C01_counting_loop.
 Print Assumptions C01_loop_capture_refuted.
 Print Assumptions C01_let_in_loop_capture_refuted.
 Print Assumptions C01_param_munge_shadow_refuted.
